@@ -133,21 +133,26 @@ PROPS = {
                              "independence of the numeric type carrying an argument (bounded)"]),
     "C04": dict(
         level="other",
-        contracts=["numpoly.align_shape", "numpoly.align_exponents", "numpoly.align_polynomials"],
+        contracts=["numpoly.align_shape", "numpoly.align_indeterminants", "numpoly.align_exponents", "numpoly.align_polynomials"],
         trusted_base=COMMON_TRUSTED + [
-            "assumed contract of align_indeterminants (rank-sorted union of names, column scatter): bounded check only",
+            "CPython set/sorted semantics for the union of the name tuples (axiom sorted_union), A6 canonical names",
             "contract of polynomial_from_attributes (proved under C03) and the ndpoly accessor model",
             "numpy axioms: broadcast_shapes, ones, ufunc broadcasting, vstack, unique(axis=0), tolist, dict get"],
-        assumptions=["bridge axioms B1, B2, B4 (definition of the abstract value under cleaning, broadcasting and addition of "
+        assumptions=["bridge axioms B1, B2, B3, B4 (definition of the abstract value under cleaning, broadcasting, re-indexing of "
+                     "exponent columns by name and addition of "
                      "all-zero terms); each use is preceded by obligations establishing its premises on the real code",
                      "variadic *polys: arities 1..3 (align_shape: 1..2) enumerated for the proof; higher arities bounded"],
         explanation="align_shape: every rebuilt operand is built from its own exponents/names and from coefficients that are the "
                     "broadcast copies (obligation at coefficient level), dtype kept (ones of dtype bool), unchanged operands only "
                     "when their shape already is the common one. align_exponents: results are fresh, retain every term and name, "
                     "share rows and names, each term of an operand is present with its coefficient (explicit position witness through "
-                    "vstack/unique) and all other rows are zero. align_polynomials: composition. Arguments are never written "
-                    "(frame obligations at every write). Idempotence, argument order, name-union order: bounded run-time check.",
-        not_decided=["align_indeterminants body (bounded only)", "idempotence clause (bounded only)"],
+                    "vstack/unique) and all other rows are zero. align_polynomials: composition. align_indeterminants (arity 1-2): the common "
+                    "names are the index-sorted union of the operands' names (distinct, containing every operand name), an operand is "
+                    "returned unchanged only if it already has them, otherwise it is rebuilt on them with retain flags on (nothing "
+                    "pruned under any option setting), its own coefficients, each exponent moved to the column of its name and zero "
+                    "exponents for names it does not mention. Arguments are never written (frame obligations at every write). "
+                    "Idempotence and higher arities: bounded run-time check.",
+        not_decided=["idempotence clause (bounded only)", "arity >= 3 of align_indeterminants, >= 4 of the others (bounded only)"],
     ),
     "C05": dict(level="other", contracts=["numpoly.poly_divmod", "numpoly.poly_divide", "numpoly.poly_remainder"],
                 explanation="poly_divmod (real source) is proved at the level of abstract polynomial values in a commutative ring: "
